@@ -249,6 +249,45 @@ func c01run(rep *lib.Report, c c01case) {
 		}
 	}
 	rep.Outcome(fmt.Sprintf("L%d|n%d|%s", L, n, c.Pat))
+	if haveRef && !c.FullRead {
+		// large leaf sizes: a small battery instead of the complete one - sequential Read, and random access inside a
+		// leaf, across a leaf boundary and across the end of the object, on a fresh file system object
+		replay := map[string]interface{}{"L": L, "n": n, "pattern": c.Pat, "battery": "small (large leaf size)"}
+		guard(rep, "C01|big-leaf|"+lenClass(n, L), func() string { return fmt.Sprintf("L=%d n=%d", L, n) }, replay, func() {
+			fs := newFs(store, L, 1, 0, 4)
+			if r, err := fs.Get(ctx, refKey); err == nil {
+				got, rerr := io.ReadAll(plainReader{r})
+				rep.Eval(1)
+				if rerr != nil || !bytes.Equal(got, data) {
+					rep.Violate("C01|Read|big-leaf|"+lenClass(n, L), fmt.Sprintf("L=%d n=%d: sequential Read returned %d bytes, err=%v", L, n, len(got), rerr), replay)
+				}
+			} else {
+				rep.Violate("C01|get|error|big-leaf", err.Error(), replay)
+			}
+			ra, err := fs.GetAt(ctx, refKey)
+			if err != nil {
+				rep.Violate("C01|getat|error|big-leaf", err.Error(), replay)
+				return
+			}
+			for _, q := range [][2]int{{0, 10}, {L / 2, 10}, {L - 5, 10}, {n - 3, 10}, {n - 1, 1}, {0, n}} {
+				off, l := q[0], q[1]
+				if off < 0 || off >= n {
+					continue
+				}
+				buf := make([]byte, l)
+				k, err := ra.ReadAt(buf, int64(off))
+				rep.Eval(1)
+				end := off + l
+				if end > n {
+					end = n
+				}
+				if (err != nil && err != io.EOF) || k != end-off || !bytes.Equal(buf[:max0(k)], data[off:end]) {
+					rep.Violate("C01|ReadAt|big-leaf|"+lenClass(n, L), fmt.Sprintf("L=%d n=%d: ReadAt(off=%d,len=%d) returned %d bytes, err=%v, want %d bytes of the content", L, n, off, l, k, err, end-off), replay)
+					return
+				}
+			}
+		})
+	}
 	if !haveRef || !c.FullRead {
 		return
 	}
@@ -526,6 +565,10 @@ func TestC01(t *testing.T) {
 	cases := c01cases()
 	if lib.Thorough() {
 		cases = append(cases, c01big()...)
+	} else {
+		// one object at a leaf size above the 2 MiB default (buffers sized for the default must not be assumed)
+		L := 2<<20 + 4096
+		cases = append(cases, c01case{L: L, N: L + 1, Pat: "pos", Chunks: []int{0}, Concs: []int{2}})
 	}
 	rep.Rule = "exhaustive product: leaf size x content length (every length 0..3L+1 at L=64 in thorough; boundary lengths otherwise) x content pattern x source chunking (every chunk size 1..2L+1, one single write, 32KiB writes) x flush concurrency; per stored object the full read battery (Read with every buffer size, ReadAt at every offset x 7 lengths x prefetch/cache settings, WriteTo to Writer and WriterAt, io.Copy, mixed styles); plus, at L=64, a second Put of the content into a store that already holds a damaged copy (emptied; with a CRC-reporting backend also cut short / altered) of each one of its blobs: acknowledged only if it then reads back exactly; distinct = distinct (L, n, pattern) objects; evaluations = Put calls + individual read calls"
 	rep.Assume("reference store = in-memory map with GCS-like contract (harness/lib/memstore.go); blobs are delivered in >=2 Read calls followed by a separate (0,EOF)")
